@@ -17,6 +17,11 @@ decorator of cashews/wrapper/decorators.py that takes `tags=`): `call K F TTL [E
 Model lines `early K LK X TTL E TAGS`, `soft K X TTL S TAGS`, `hit K KC X TTL TAGS CACHE_HITS UPDATE_AFTER` (X = number of
 the fresh token, LK / KC = lock / counter key): the model decides from its own state whether the decorator serves the
 entry, recalculates it ahead of its deadline (a tagged RE-WRITE of a live key) or computes it anew.
+Layouts `strat+OPT+OPT..` decorate the same functions with the options that change the wrapping path
+(cashews/wrapper/decorators.py): `upper` (upper=True: _wrap_with_condition), `lock` (lock=True, @cache only), `unprot`
+(protected=False), `tc` (time_condition=1 s: a result is stored iff the body took longer; a call may carry `d=N`, the ticks
+its body takes).  Model lines end in `D A AR` (ticks of the body, condition accepts a computed / a re-written result) and
+the simple decorator's line is `scall K V TTL TAGS D A AR`.
 `delmatch P` uses pattern P of the layout - glob patterns with `*`, wildcard-free patterns naming one key exactly,
 and patterns matching nothing (model line: `delmatch <keys of the universe that match>`).
 TTLs / advances are ticks of 1/8 s.
@@ -63,6 +68,7 @@ class Layout:
         funcs = [tuple(f[:3]) for f in funcs]
         self.lock_base = {sp["lock"]: f[0] for f, sp in zip(funcs, self.fspec) if "lock" in sp}   # lock template -> key template
         self.direct_templates = direct    # templates whose keys the generator may write directly (None = all)
+        self.opts = frozenset()           # wrapping options applied to every decorated function that takes them
         self.keys = []  # (string, template idx, fields)
         for ti, tpl in enumerate(templates):
             names = [f for _, f, _, _ in string.Formatter().parse(tpl) if f]
@@ -246,7 +252,19 @@ def apply_mutation(name: str, obj):
     MUTATIONS[kind][name](obj)
 
 
+OPTIONS = ("upper", "lock", "unprot", "tc")
+TC_LIMIT = 8      # time_condition of the layouts with `tc`, in ticks (1 s)
+
+
 def make_layout(name: str) -> Layout:
+    if "+" in name:
+        base, *opts = name.split("+")
+        if base != "strat" or any(o not in OPTIONS for o in opts):
+            raise HarnessError(f"unknown layout {name}")
+        lay = make_layout(base)
+        lay.name = name
+        lay.opts = frozenset(opts)
+        return lay
     if name == "plain":
         # plain tags registered on a whole key family and on single keys
         return Layout(name, ["k:{i}"], {"i": ["0", "1", "2", "3"]}, ["ta", "tb", "tc"],
@@ -283,6 +301,12 @@ def make_layout(name: str) -> Layout:
                       funcs=[(0, ["cols:{cols}", "all"], ["cols"]), (0, ["cols:{cols}"], ["cols"]),
                              (1, ["all", "opts:{opts}"], ["opts"])],
                       patterns=["r:a*", "q:*", "r:*z", "r:*"])
+    if name == "nl":
+        # argument values that contain line breaks: the registry's regular expression has to take them in (a field is
+        # `.+`: with re.DOTALL), or the on-remove pruning skips the key and a later delete_tags deletes its re-creation
+        return Layout(name, ["n:{u}", "g:{u}"], {"u": ["a", "a\nb", "c\n"]}, ["nt:{u}", "all"],
+                      regs=[("nt:{u}", "n:{u}"), ("all", "n:{u}")],
+                      funcs=[(1, ["nt:{u}"], ["u"])], patterns=["n:*", "g:a*"])
     if name == "strat":
         # every decorator that takes tags= (cashews/wrapper/decorators.py: cache, early, soft, hit, dynamic), each with
         # its own key family; the per-argument tag tg:{x} is shared by the families (same x), `all` by some of them; a
@@ -380,6 +404,7 @@ class Runner:
         self.registered = True                  # every tag used so far was registered for its key
         self.next_ttl = None
         self.next_early = None
+        self.next_dur = 0
         self.purge_task = None
         self.refreshed: dict[int, dict] = {}    # key -> what its entry / tag sets looked like before its latest write, if that was a decorator's re-write of a live entry
 
@@ -471,9 +496,14 @@ class Runner:
             async def fn(user):
                 runner.body_ran = True
                 return runner.body_val
+        elif argnames == ["u"]:
+            async def fn(u):
+                runner.body_ran = True
+                return runner.body_val
         elif argnames == ["x"]:
             async def fn(x):
                 runner.body_ran = True
+                CLOCK.advance(runner.next_dur)      # the body takes this long
                 return runner.body_val
         elif argnames == ["cols"]:
             async def fn(cols):
@@ -487,7 +517,29 @@ class Runner:
                 return runner.body_val
         else:  # pragma: no cover
             raise HarnessError("unsupported signature")
-        return cache(ttl=ttl_fn, key=key_tpl, tags=tuple(tag_tpls))(fn)
+        return cache(ttl=ttl_fn, key=key_tpl, tags=tuple(tag_tpls), **self._wrap_options("simple"))(fn)
+
+    def _wrap_options(self, kind: str) -> dict:
+        """the options of the layout, as far as the decorator of this kind takes them"""
+        o = self.lay.opts
+        kw = {}
+        if "upper" in o:
+            kw["upper"] = True
+        if "lock" in o and kind == "simple":
+            kw["lock"] = True
+        if "unprot" in o and kind in ("simple", "early", "soft"):
+            kw["protected"] = False
+        if "tc" in o:
+            kw["time_condition"] = TC_LIMIT / 8
+        return kw
+
+    def _run_of(self, dur: int, background: bool):
+        """(accept, acceptRefresh) of Model/Tags.lean `Run`, the harness's own reading of the options: time_condition accepts
+        iff the body took longer than the limit; upper=True rejects what is computed after an entry was found, while the
+        call is still in progress - a re-write in a background task (early / hit with background=True, dynamic) runs once the
+        call has returned and its record of found entries is cleared, and is accepted"""
+        accept = dur > TC_LIMIT if "tc" in self.lay.opts else True
+        return accept, accept and ("upper" not in self.lay.opts or background)
 
     def _make_strategy_func(self, cache, full_tpl, tag_tpls, spec, ttl_fn, early_fn):
         """a function decorated with one of the re-writing strategies; its body returns a fresh token at once"""
@@ -499,19 +551,21 @@ class Runner:
 
         async def fn(x):
             runner.body_ran = True
+            CLOCK.advance(runner.next_dur)      # the body takes this long
             return runner.body_val
 
         tags = tuple(tag_tpls)
+        kw = self._wrap_options(kind)
         if kind == "early":
-            return cache.early(ttl=ttl_fn, early_ttl=early_fn, key=spec["key"], tags=tags, background=spec["bg"])(fn)
+            return cache.early(ttl=ttl_fn, early_ttl=early_fn, key=spec["key"], tags=tags, background=spec["bg"], **kw)(fn)
         if kind == "soft":
-            return cache.soft(ttl=ttl_fn, soft_ttl=spec["soft"] / 8, key=spec["key"], tags=tags)(fn)
+            return cache.soft(ttl=ttl_fn, soft_ttl=spec["soft"] / 8, key=spec["key"], tags=tags, **kw)(fn)
         if kind == "hit":
             # update_after=0: no update; the entry is computed anew by the call after cache_hits hits
             return cache.hit(ttl=spec["ttl"] / 8, cache_hits=spec["cache_hits"], update_after=spec["update_after"],
-                             key=spec["key"], tags=tags, background=spec["bg"])(fn)
+                             key=spec["key"], tags=tags, background=spec["bg"], **kw)(fn)
         if kind == "dynamic":
-            return cache.dynamic(ttl=spec["ttl"] / 8, key=spec["key"], tags=tags)(fn)
+            return cache.dynamic(ttl=spec["ttl"] / 8, key=spec["key"], tags=tags, **kw)(fn)
         raise HarnessError(f"unknown decorator kind {kind}")
 
     async def _drain(self):
@@ -631,7 +685,7 @@ class Runner:
                 if r == 0:
                     self._bump("tagged_incr_result_zero")
             return line, f"n={r}"
-        if op == "call" and lay.fspec[int(w[2])]["kind"] != "simple":
+        if op == "call" and (lay.fspec[int(w[2])]["kind"] != "simple" or lay.name.split("+")[0] == "strat"):
             return await self._call_strategy(w, line)
         if op == "call":
             ki, fi, ttl = int(w[1]), int(w[2]), ttl_of(w[3])
@@ -715,9 +769,10 @@ class Runner:
         raise HarnessError(f"bad op {w}")
 
     async def _call_strategy(self, w, line):
-        """a call of a function decorated with early / soft / hit / dynamic.  The model line leaves the decision (serve,
-        serve and recalculate, compute) to the model; the harness's own log takes it from what happened: the body ran
-        = the decorator wrote the key, with the tags rendered from this call's arguments."""
+        """a call of a function of the layouts strat / strat+OPTIONS (decorated with cache / early / soft / hit / dynamic, under
+        the layout's wrapping options).  The model line leaves the decision (serve, re-write, compute) to the model; the
+        harness's own log takes it from what happened: the body ran and the decorator's condition (the harness's own reading of
+        the options, `_run_of`) accepts the result = the decorator wrote the key, with the tags rendered from this call's arguments."""
         lay = self.lay
         ki, fi = int(w[1]), int(w[2])
         spec = lay.fspec[fi]
@@ -728,7 +783,13 @@ class Runner:
             if w[3] != str(spec["ttl"]):
                 raise HarnessError(f"`{line}`: the ttl of a hit function is fixed ({spec['ttl']})")
         ttl = ttl_of(w[3])
-        early = int(w[4]) if kind == "early" else None
+        rest = list(w[4:])
+        dur = 0
+        if rest and rest[-1].startswith("d="):
+            dur = int(rest.pop()[2:])
+        if dur and self.cfg["purge"]:
+            raise HarnessError(f"`{line}`: bodies that take time are not run with the purge task on")
+        early = int(rest[0]) if kind == "early" else None
         if kind == "early" and early < 1:
             raise HarnessError(f"`{line}`: early_ttl must be positive")
         self._touch_stats(ki)
@@ -739,40 +800,61 @@ class Runner:
         self.body_ran = False
         self.next_ttl = ttl
         self.next_early = None if early is None else early / 8
+        self.next_dur = dur
         snap = self._pre_write(ki, tags)
         prev = self._readable(ki)
         sets_before = {}
         for t in tags:
             ls = self._live_set(t)
             sets_before[t] = "absent" if ls is None else ls[0]
-        r = await self.funcs[fi](lay.keys[ki][2]["x"])
-        await self._drain()
+        t0 = CLOCK.t
+        try:
+            r = await self.funcs[fi](lay.keys[ki][2]["x"])
+            await self._drain()
+        finally:
+            self.next_dur = 0
         ran = self.body_ran
+        if CLOCK.t != t0 + (dur / 8 if ran else 0):
+            raise HarnessError(f"the virtual clock moved by {(CLOCK.t - t0) * 8} ticks during `{line}`")
         served = (not ran) or r != self.body_val
-        # what is compared with the model: served without running the body -> the cached value; body ran -> the value
-        # that was stored.  Which value a call that RE-WRITES returns (the entry it found or the fresh result) is the
-        # strategy's business, not C12's: it is left out.
+        # what is compared with the model: served without running the body -> the cached value; body ran -> `vs=`.  Which
+        # value a call that RE-WRITES returns (the entry it found or the fresh result) is the strategy's business, not
+        # C12's, and whether the result was stored shows in the probes that follow: `compare` takes `vs=...` for `vs=...`.
         out = ("v=" + show_val(r)) if not ran else ("vs=" + show_val(self.body_val))
+        accept, accept_refresh = self._run_of(dur, bool(spec.get("bg")))
+        run = f"{dur} {int(accept)} {int(accept_refresh)}"
         tg = show_tags(tags)
-        if kind == "early":
-            mline = f"early {ki} {side} {self.fresh} {w[3]} {early} {tg}"
+        if kind == "simple":
+            mline = f"scall {ki} t:{self.fresh} {w[3]} {tg} {run}"
+        elif kind == "early":
+            mline = f"early {ki} {side} {self.fresh} {w[3]} {early} {tg} {run}"
         elif kind == "soft":
-            mline = f"soft {ki} {self.fresh} {w[3]} {spec['soft']} {tg}"
+            mline = f"soft {ki} {self.fresh} {w[3]} {spec['soft']} {tg} {run}"
         else:
-            mline = f"hit {ki} {side} {self.fresh} {w[3]} {tg} {spec['cache_hits']} {spec['update_after']}"
+            mline = f"hit {ki} {side} {self.fresh} {w[3]} {tg} {spec['cache_hits']} {spec['update_after']} {run}"
         # the harness's own log
         if kind in ("hit", "dynamic"):
             self._note_write(side, tags)           # the counter is incremented, with the tags, by every call
             self._bump("hit_counter_tagged_incr")
         if served and ki in self.must_be_dead:
             self._oracle_fail("complete", self.must_be_dead[ki], ki, f"`{line}` was served from the cache ({show_val(r)}) after delete_tags")
-        if ran:
+        # the path the call took, as far as the log needs it: a body that ran after an entry was found re-writes it
+        # (early: the entry was readable; hit / dynamic: the call answered with it), anything else computes
+        rewrites = ran and ((kind == "early" and prev is not None) or (kind in ("hit", "dynamic") and served))
+        stored = ran and (accept_refresh if rewrites else accept)
+        if ran and not stored:
+            self._bump("time_condition_rejects_result" if not accept else "upper_rejects_rewrite_of_found_entry")
+        if stored:
+            for o in sorted(lay.opts):
+                self._bump(f"tagged_write_through_option_{o}")
+            if dur:
+                self._bump("tagged_write_after_slow_body")
             if kind in ("hit", "dynamic"):
                 self._note_delete(side, "decorator")   # _get_and_save drops the counter ...
             self._note_write(ki, tags)                 # ... and stores the result with the call's tags
             self._post_write(snap, ttl)
             if prev is None:
-                self._bump(f"{kind}_miss_tagged_write")
+                self._bump(f"{kind}_miss_tagged_write" if kind != "simple" else "decorator_miss_tagged_write")
             else:
                 self._bump("decorator_rewrites_live_entry")
                 self.refreshed[ki] = {"prev_dl": prev[0], "sets": sets_before}
@@ -789,8 +871,8 @@ class Runner:
                     self._bump("rewrite_extends_key_deadline")
                 if prev[0] is not None and new_dl is not None and new_dl < prev[0]:
                     self._bump("rewrite_shortens_key_deadline")
-        else:
-            self._bump(f"{kind}_served_from_cache")
+        elif not ran:
+            self._bump(f"{kind}_served_from_cache" if kind != "simple" else "decorator_hit")
         return mline, out
 
     def _oracle_fail(self, clause: str, at: int, ki: int, what: str):
@@ -902,7 +984,7 @@ class Runner:
                 raise
             except Exception as exc:  # an exception the model does not know is itself a disagreement
                 mline, out = line, f"X:{type(exc).__name__}:{exc}"[:120]
-            if CLOCK.t != t_before:
+            if CLOCK.t != t_before and not (w[0] == "call" and w[-1].startswith("d=")):
                 raise HarnessError(f"the virtual clock moved during `{line}`")
             self.eff.append((mline, out))
         # which backend physically holds the tag sets (glue: prefix routing of '_tag:')
@@ -917,6 +999,70 @@ def execute(cfg: str, layout: Layout, ops: list[str]) -> Runner:
     r = Runner(cfg, layout)
     vtime.run(r.run, ops)
     return r
+
+
+def prefix_middleware_probe():
+    """tags through a key-renaming middleware (cashews/helpers.py add_prefix): the commands the tag wrapper issues with a
+    positional key (set_add) and with a keyword key (set_pop) must address the same tag set, or delete_tags never finds
+    the members.  Returns None if a tagged key is unreadable after delete_tags, else a description.  (Only completeness
+    is probed: the on-remove callback reports the renamed key, which the registry does not know - pruning, hence the
+    precision clause, is outside what a renaming middleware supports.)"""
+    from cashews import Cache
+    from cashews.helpers import add_prefix
+
+    async def go():
+        cache = Cache()
+        cache.setup("mem://?size=1000&check_interval=0", middlewares=(add_prefix("P:"),))
+        cache.register_tag("pt", "pk:{i}")
+        await cache.init()
+        await cache.set("pk:A", "t1", expire=100, tags=["pt"])
+        await cache.incr("pk:B", 1, tags=["pt"])
+        await cache.delete_tags("pt")
+        got = [await cache.get("pk:A", default=None), await cache.get("pk:B", default=None)]
+        await cache.close()
+        return got
+
+    got = vtime.run(go)
+    if got != [None, None]:
+        return {"middleware": "add_prefix('P:')", "ops": ["set pk:A t1 ttl=100 tags=[pt]", "incr pk:B tags=[pt]", "delete_tags pt", "get pk:A", "get pk:B"],
+                "observed": [repr(x) for x in got], "expected": ["None", "None"]}
+    return None
+
+
+def not_judged_probes() -> dict:
+    """two behaviours reported against C12 that lie outside its alphabet (expire(), transactions): run once per check and
+    recorded as observations, never judged.  True = the key survived delete_tags."""
+    from cashews import Cache
+
+    async def go():
+        out = {}
+        cache = Cache()
+        cache.setup("mem://?size=1000&check_interval=0")
+        cache.register_tag("t", "k")
+        await cache.init()
+        await cache.set("k", 1, expire=10, tags=["t"])
+        await cache.expire("k", 100)          # moves the key's deadline, not the tag set's
+        CLOCK.advance(160)
+        await cache.delete_tags("t")
+        out["expire_moves_key_past_its_tag_set_then_delete_tags_misses_it"] = await cache.get("k") is not None
+        await cache.close()
+        cache = Cache()
+        cache.setup("mem://?size=1000&check_interval=0")
+        cache.register_tag("t", "k")
+        await cache.init()
+        await cache.set("k", 1, tags=["t"])
+        try:
+            async with cache.transaction() as tx:
+                await cache.delete_tags("t")  # set_pop is not buffered by the transaction: the membership is gone for good
+                await tx.rollback()
+            await cache.delete_tags("t")
+            out["delete_tags_in_rolled_back_transaction_loses_membership"] = await cache.get("k") is not None
+        except Exception as exc:  # noqa: BLE001
+            out["delete_tags_in_rolled_back_transaction_loses_membership"] = f"X:{type(exc).__name__}"
+        await cache.close()
+        return out
+
+    return vtime.run(go)
 
 
 def batch_literal() -> int:
@@ -1164,14 +1310,26 @@ def keys_of_func(lay: Layout, fi: int) -> list[int]:
     return [ki for ki, (_, ti, _) in enumerate(lay.keys) if ti == lay.funcs[fi][0]]
 
 
+STRAT_DURS = [0, 8, 9, 9, 9, 16, 16]     # ticks a body takes under time_condition (limit 8: 0 and 8 are not stored)
+
+
 def gen_strat_call(rng, lay: Layout, ki: int, fi: int, ttl=None, early=None) -> str:
+    """a call of function fi of a strat layout; under time_condition (`tc`) the body takes some time"""
     sp = lay.fspec[fi]
+    d = f" d={rng.choice(STRAT_DURS)}" if "tc" in lay.opts else ""
     if sp["kind"] in ("hit", "dynamic"):
-        return f"call {ki} {fi} {sp['ttl']}"
+        return f"call {ki} {fi} {sp['ttl']}{d}"
     ttl = ttl if ttl is not None else rng.choice(STRAT_TTLS)
     if sp["kind"] == "early":
-        return f"call {ki} {fi} {ttl} {early if early is not None else rng.choice(STRAT_EARLY)}"
-    return f"call {ki} {fi} {ttl}"
+        return f"call {ki} {fi} {ttl} {early if early is not None else rng.choice(STRAT_EARLY)}{d}"
+    if sp["kind"] == "simple":
+        return f"call {ki} {fi} {ttl if ttl != '-' or 'lock' not in lay.opts else 800}{d}"
+    return f"call {ki} {fi} {ttl}{d}"
+
+
+def dur_of(opline: str) -> int:
+    w = opline.split()
+    return int(w[-1][2:]) if w[-1].startswith("d=") else 0
 
 
 def probe_keys(lay: Layout) -> list[int]:
@@ -1198,7 +1356,7 @@ def gen_strat_history(rng, lay: Layout, maxlen: int) -> list[str]:
         if op == "call":
             ki, fi = rng.choice(focus)
             if lay.fspec[fi]["kind"] == "simple":
-                ops.append(f"call {ki} {fi} {rng.choice(['8', '16', '24', '800'])}")
+                ops.append(gen_strat_call(rng, lay, ki, fi, ttl=rng.choice(['8', '16', '24', '800'])))
             else:
                 ops.append(gen_strat_call(rng, lay, ki, fi))
         elif op == "adv":
@@ -1212,7 +1370,7 @@ def gen_strat_history(rng, lay: Layout, maxlen: int) -> list[str]:
                 ops += [f"{rng.choice(['get', 'get', 'exists'])} {k}" for k in order]
                 if rng.random() < 0.5:
                     ki, fi = rng.choice(focus)
-                    ops.append(gen_strat_call(rng, lay, ki, fi) if lay.fspec[fi]["kind"] != "simple" else f"call {ki} {fi} 800")
+                    ops.append(gen_strat_call(rng, lay, ki, fi, ttl=None if lay.fspec[fi]["kind"] != "simple" else 800))
         elif op == "get":
             ops.append(f"get {rng.choice(pk)}")
         elif op == "exists":
@@ -1244,6 +1402,8 @@ def gen_refresh(rng, lay: Layout) -> list[str]:
     sp = lay.fspec[fi]
     kind = sp["kind"]
     ki = rng.choice(keys_of_func(lay, fi))
+    if lay.opts and rng.random() < 0.25:
+        return gen_simple_opt(rng, lay)
     tags = lay.func_tags(fi, ki)
     direct = lay.direct_keys()
     pk = probe_keys(lay)
@@ -1266,46 +1426,52 @@ def gen_refresh(rng, lay: Layout) -> list[str]:
                 fo = rng.randrange(len(lay.funcs))
                 ko = rng.choice(keys_of_func(lay, fo))
                 if ko != ki:
-                    out.append(gen_strat_call(rng, lay, ko, fo) if lay.fspec[fo]["kind"] != "simple" else f"call {ko} {fo} {rng.choice(['8', '24', '800'])}")
+                    out.append(gen_strat_call(rng, lay, ko, fo, ttl=None if lay.fspec[fo]["kind"] != "simple" else rng.choice(['8', '24', '800'])))
         return out
 
     if rng.random() < 0.3:
         ops += light_noise()
-    now = 0          # ticks since the first call (noise has no time advance)
+    start = len(ops)
+
+    def clock() -> int:
+        """ticks since the first call began: the advances, and the time the bodies took (layouts with `tc`)"""
+        return sum(int(o.split()[1]) if o.startswith("adv ") else dur_of(o) for o in ops[start:])
+
+    now = 0
     if kind in ("early", "soft"):
         T = rng.choice([16, 24, 24, 40, 800])
         E = rng.choice(STRAT_EARLY) if kind == "early" else sp["soft"]
         ops.append(gen_strat_call(rng, lay, ki, fi, ttl=T, early=E))
+        deadlines = [clock() + T]
         ops += light_noise()
-        deadlines = [T]
         for _ in range(rng.choice([1, 1, 1, 2, 3])):
+            now = clock()
             # into the window where the entry is still alive but due for its re-write (sometimes just outside)
             lo = E + (1 if kind == "early" else 0)
             hi = min(deadlines[-1] - now - 1, lo + 12)
             a = rng.randint(lo, hi) if hi >= lo and rng.random() < 0.85 else rng.choice([max(lo - 1, 0), max(deadlines[-1] - now, 0), lo])
             ops.append(f"adv {a}")
-            now += a
             T2 = rng.choice([T, T, 16, 24, 40, 800])
             E = rng.choice(STRAT_EARLY) if kind == "early" else sp["soft"]
             ops.append(gen_strat_call(rng, lay, ki, fi, ttl=T2, early=E))
-            deadlines.append(now + T2)
+            deadlines.append(clock() + T2)
             ops += light_noise()
         first, last = deadlines[0], deadlines[-1]
     else:
         T = sp["ttl"]
         ncalls = rng.randint(2, sp["cache_hits"] + 3)
-        deadlines = [T]
+        deadlines = []
         for i in range(ncalls):
             ops.append(gen_strat_call(rng, lay, ki, fi))
+            deadlines.append(clock() + T)
             if i < ncalls - 1:
                 a = rng.choice([0, 0, 1, 4, 8, 9])
                 if a:
                     ops.append(f"adv {a}")
-                    now += a
-                deadlines.append(now + T)
             if rng.random() < 0.2:
                 ops += light_noise()
         first, last = deadlines[0], deadlines[-1]
+    now = clock()
     # around the deadlines: after the original one and before the last re-write's (the interesting window), or elsewhere
     x = rng.random()
     if x < 0.6 and last - 1 >= max(first, now):
@@ -1326,6 +1492,33 @@ def gen_refresh(rng, lay: Layout) -> list[str]:
     ops += [f"{rng.choice(['get', 'get', 'exists'])} {k}" for k in order]
     if rng.random() < 0.6:
         ops.append(gen_strat_call(rng, lay, ki, fi))
+        ops.append(f"get {ki}")
+    return ops
+
+
+def gen_simple_opt(rng, lay: Layout) -> list[str]:
+    """directed at the wrapping options on the simple @cache (upper / lock / unprotected / time_condition): a few calls (misses
+    that store under the call's tags, hits, under `tc` also fast bodies whose result is not stored), time, delete_tags of
+    a tag of a call, probes and a further call"""
+    fs = [fi for fi, sp in enumerate(lay.fspec) if sp["kind"] == "simple"]
+    pk = probe_keys(lay)
+    ops, called = [], []
+    for _ in range(rng.randint(1, 3)):
+        fi = rng.choice(fs)
+        ki = rng.choice(keys_of_func(lay, fi))
+        ops.append(gen_strat_call(rng, lay, ki, fi, ttl=rng.choice(["16", "24", "800", "800"])))
+        called.append((ki, fi))
+        if rng.random() < 0.4:
+            ops.append(f"adv {rng.choice([0, 1, 8, 9, 17])}")
+        if rng.random() < 0.3:
+            ops.append(gen_strat_call(rng, lay, ki, fi, ttl="800"))
+    ki, fi = rng.choice(called)
+    ops.append(f"deltags {rng.choice(lay.func_tags(fi, ki))}")
+    order = list(pk)
+    rng.shuffle(order)
+    ops += [f"get {k}" for k in order]
+    if rng.random() < 0.6:
+        ops.append(gen_strat_call(rng, lay, ki, fi, ttl="800"))
         ops.append(f"get {ki}")
     return ops
 
